@@ -1,6 +1,6 @@
 (* C16 — Drawing never escapes the canvas or its clip region.
    Only statements here; each closed by [exact] of a lemma from Proofs/. *)
-From RP Require Import Lib.Base Model.Mono Model.MonoConv Spec.Clip Proofs.PixelProofs Proofs.DrawProofs Proofs.OpsProofs Proofs.TailOps.
+From RP Require Import Lib.Base Model.Mono Model.MonoConv Spec.Clip Proofs.PixelProofs Proofs.DrawProofs Proofs.OpsProofs Proofs.TailOps Proofs.EffColour.
 
 (* A fresh canvas of any size >= 0 is well-formed: buffer length = ceil(W/8)*H, all bytes < 256. *)
 Theorem c16_new_image_wf : forall w h, 0 <= w -> 0 <= h -> wf_img (new_image w h).
@@ -91,6 +91,23 @@ Theorem c16_exact : forall (i : img) (o : op) (col : bool),
     then xorb col (ginv (ig i)) else px (gwib (ig i)) (idata i) c r.
 Proof. exact op_exact. Qed.
 Print Assumptions c16_exact.
+
+(* Requested colour and inversion flag act only through their exclusive-or - the EFFECTIVE colour: a
+   history run on the canvas with the inversion flag (and the text colours) flipped, every colour
+   argument and every InvertPixels / SetTextColor argument flipped, gives the same canvas state
+   (flipped) and therefore the same pixels - for every operation, text included.  No operation can
+   depend on the requested colour alone (seed C16-12 did: a "still blank" shortcut in FillRect). *)
+Theorem c16_effective_colour : forall i ops,
+  run_ops (flip_img i) (map flip_op ops) = flip_img (run_ops i ops)
+  /\ idata (run_ops (flip_img i) (map flip_op ops)) = idata (run_ops i ops).
+Proof. exact (fun i ops => conj (run_ops_flip ops i) (ops_flip_pixels i ops)). Qed.
+Print Assumptions c16_effective_colour.
+
+Example c16_nonvacuous_effective :
+  let i := new_image 16 2 in
+  idata (run_ops i [OInvert true; OPixel 3 1 false; OInvert false; OFillRect 0 0 16 1 true]) = [255; 255; 16; 0]
+  /\ idata (run_ops (flip_img i) [OInvert false; OPixel 3 1 true; OInvert true; OFillRect 0 0 16 1 false]) = [255; 255; 16; 0].
+Proof. vm_compute. split; reflexivity. Qed.
 
 (* No panic: the only unchecked slice reads of the drawing code are the font tables; on the
    tables REGENERATED from /repo every index is in range (3 fonts x 2 modes x 256 chars). *)
